@@ -151,14 +151,19 @@ def judge_measurement(m, conn, N, qubits, which):
 def _meas_work(payload):
     out = []
     n = 0
+    hist = core.History()
     for (m, conn, N, qubits, which) in payload:
         n += 1
         try:
             msgs = judge_measurement(m, conn, N, qubits, which)
         except Exception as ex:      # noqa: BLE001
             msgs = ["raised %s: %s" % (type(ex).__name__, str(ex)[:200])]
-        for msg in msgs:
-            out.append((msg, {"kind": "measurement", "m": m, "conn": conn, "N": N, "qubits": qubits, "which": which}))
+        case = {"kind": "measurement", "m": m, "conn": conn, "N": N, "qubits": qubits, "which": which}
+        if msgs:
+            cj = hist.attach(case)
+            for msg in msgs:
+                out.append((msg, cj))
+        hist.add(case)
     return n, out
 
 
